@@ -158,6 +158,49 @@ def filler_step(has_section: bool, markers, ch: str) -> bool:
 
 
 # ---------------------------------------------------------------- replay through Wtp.parse on the canonical document
+def build_pre(mask: int):
+    """sections, then the PREFORMATTED node a leading-space line leaves open at the start of the next line"""
+    build(mask, [])
+    n = _parser_push(ctx, NodeKind.PREFORMATTED)
+    n.loc = 8
+    n.children.append(" pre\n")
+    ctx.beginning_of_line = True
+    return n
+
+
+def heading_pre_step(mask: int, L: int) -> bool:
+    """a heading after a leading-space block: the block is closed where it is, the heading nests by level as always"""
+    pre = build_pre(mask)
+    before = list(ctx.parser_stack)
+    holder = before[-2]
+    subtitle_start_fn(ctx, "<" + "=" * L)
+    want = [x for x in open_levels(mask) if x < L] + [L]
+    st = ctx.parser_stack
+    if levels() != want or any(n.kind not in KIND_TO_LEVEL for n in st):
+        return False
+    node, parent = st[-1], st[-2]
+    if not (parent.children and parent.children[-1] is node and node not in before):
+        return False
+    return pre in holder.children and node not in pre.children and all(a is b for a, b in zip(st[:-1], before))
+
+
+def hline_pre_step(mask: int) -> bool:
+    pre = build_pre(mask)
+    before = list(ctx.parser_stack)
+    holder = before[-2]
+    hline_fn(ctx, "----")
+    st = ctx.parser_stack
+    if any(l > 2 for l in levels()) or any(n.kind not in KIND_TO_LEVEL for n in st):
+        return False
+    top = st[-1]
+    ok = bool(top.children) and isinstance(top.children[-1], WikiNode) and top.children[-1].kind == NodeKind.HLINE
+    return ok and pre in holder.children and all(isinstance(c, str) for c in pre.children)
+
+
+def canonical_pre_doc(mask, last_line):
+    return canonical_doc(mask, [], " pre\n" + last_line)
+
+
 def canonical_doc(mask, markers, last_line):
     lines = []
     for lvl in open_levels(mask):
@@ -211,6 +254,11 @@ def ref_tree(doc):
                 lst[2].append(item)
                 parent[2].append(lst)
                 lists.append((m, lst, item))
+        elif line[0] == " ":  # leading-space block: a PREFORMATTED node in the current section, closed by the next line
+            lists = []
+            kids = secs[-1][1][2]
+            if not (kids and kids[-1][0] == "PREFORMATTED"):
+                kids.append(("PREFORMATTED", "", [("TEXT", "", [])]))
         else:
             lists = []
             secs[-1][1][2].append(("TEXT", "", []))
